@@ -152,17 +152,6 @@ package asn1
 //@ at ip assert [every-octet-is-tested-with-the-tolerant-alphabet] ip.b == bytes[rangeindex + 1] && ip.asterisk && ip.ampersand
 //@ at iso assert [guesses-over-the-whole-content] iso.bytes == bytes
 
-// Unmarshal: on failure nothing of the input is handed back; on success the remainder is the input
-// after the first value.
-//@ func UnmarshalWithParams
-//@ props C10
-//@ site parseField#1 as pf
-//@ site parseFieldParameters#1 as pp
-//@ ensures [non-pointer-or-nil-target-is-an-error] result1 == nil ==> pf.called && pf.res1 == nil
-//@ ensures [failure-returns-no-remainder] pf.called && pf.res1 != nil ==> result0 == nil && result1 == pf.res1
-//@ at pf assert [decodes-from-the-start-with-the-given-parameters] pf.bytes == b && pf.initOffset == 0 && pf.params == pp.res
-//@ at pp assert [parameters-from-the-given-tag-string] pp.str == params
-
 // The reflective walker: not verified for what it stores (reflection), but every leaf decoder and every
 // recursive descent it reaches must be handed the lax flag of the field being decoded, so that lax
 // mode "propagates to all nested fields" and strict mode stays strict below.
